@@ -15,7 +15,7 @@
 EXTENDS Def, Json, IOUtils
 
 ASSUME InitRegisters
-ASSUME TLCSet(5, ndJsonDeserialize(IOEnv.VERIF_TRACE))
+ASSUME TLCSet(5, Norm(ndJsonDeserialize(IOEnv.VERIF_TRACE)))
 Pairs == TLCGet(5)      \* [file, idx, input, expect (text), has (0/1)]
 
 ReadPrintFiles == {"step0_repl.mal", "step1_read_print.mal"}   \* these document READ then PRINT, no evaluation
